@@ -14,7 +14,7 @@ from harness.c06 import (ALL_TYPES, build_action, decl_lines, kind_of, lib_mro, 
 from harness.common import exc_token, tok_str
 from vk.core import Case, Ctx
 
-GEN_MODULES: List[str] = ["C06Types"]
+GEN_MODULES: List[str] = ["C06Types", "C08Types"]
 MANIFEST = {
     "design_ref": "§5 C07",
     "text": ("Lean theorem c07_model_ok: for every declared action, strictness, status, body text and XML oracle, the "
@@ -31,7 +31,7 @@ MANIFEST = {
              "histories). The model is tied to client.py by comparing outcome class, error_code, error_desc, status and returned mapping on every "
              "generated response; C07.ok is evaluated on the implementation's outcome."),
     "note": ("Trusted: Lean kernel + standard axioms; XML text -> tree (expat/defusedxml: prefixes, whitespace, entities, "
-             "CDATA) is an oracle table filled by the real parser, sampled not proved; float()/parse_date_time are oracles; "
+             "CDATA) is an oracle table filled by the real parser, sampled not proved; float() is an oracle (C08's FloatOps), every other out-argument conversion is C08's coercePython over the generated 26-row table (conversion_total: a failure is a ValueError); "
              "situations the property is silent about (childless/misplaced/multiple Fault, non-numeric errorCode, "
              "unconvertible out-argument text, neither fault nor response element on 200, no body) are compared with the "
              "model but not judged."),
@@ -49,7 +49,7 @@ EXHAUSTIVE = {"quick": False, "thorough": False}
 ASSUMPTIONS = [
     "XML text -> tree is whatever defusedxml.ElementTree.fromstring returns (oracle); documents with DTDs/entities (refused by defusedxml with a non-ParseError) are not generated",
     "non-ASCII decimal digits (accepted by Python int()) are outside the model",
-    "float(text) and parse_date_time(text) are oracles (C08's subject)",
+    "float(text) is an oracle table (C08's FloatOps); every other conversion, parse_date_time included, is C08's model over the generated table",
 ]
 TRUSTED = ["C07: the XML oracle table is filled by the same parser the library calls"]
 
@@ -191,7 +191,8 @@ def value_text(rng, t: str) -> str:
     if k == "str":
         return c06.rand_str(rng)
     if k == "bool":
-        return rng.choice(["1", "0", "true", "false", "yes", "no", "TRUE", "Yes", "True", " 1", "", "2", "on", "y"])
+        return rng.choice(["1", "0", "true", "false", "yes", "no", "TRUE", "Yes", "True", "tRuE", "YES", "yEs", "No", "FALSE",
+                           " 1", "", "2", "on", "y", "1 ", "truee"])
     if c < 0.9:
         if t == "date":
             v: Any = c06.rand_date(rng)
@@ -200,15 +201,26 @@ def value_text(rng, t: str) -> str:
         else:
             v = c06.rand_time(rng)
         s = v.isoformat()
-        if rng.random() < 0.2:
+        # the spellings parse_date_time accepts (C08 `Spelling`): space for T (naive date-times), Z / z for
+        # UTC date-times, offsets as ±HH:MM, ±HHMM, ` ±HHMM`, ` ±HH:MM`
+        has_off = len(s) > 6 and s[-3] == ":" and s[-6] in "+-"
+        c2 = rng.random()
+        if not has_off and "T" in s and c2 < 0.2:
             s = s.replace("T", " ")
-        if rng.random() < 0.15 and s.endswith("+00:00"):
-            s = s[:-6] + "Z"
-        if rng.random() < 0.15 and len(s) > 6 and s[-3] == ":" and s[-6] in "+-":
+        elif has_off and "T" in s and s.endswith("+00:00") and c2 < 0.2:
+            s = s[:-6] + rng.choice(["Z", "z"])
+        elif has_off and c2 < 0.35:
             s = s[:-3] + s[-2:]
+        elif has_off and c2 < 0.5:
+            s = s[:-6] + " " + s[-6:-3] + s[-2:]
+        elif has_off and c2 < 0.6:
+            s = s[:-6] + " " + s[-6:]
+        elif c2 > 0.97:
+            s = s + "\n"
         return s
-    return rng.choice(["", "abc", "12:00", "2020-13-01", "2020-02-30", "2020-01-01T25:00:00", "2020-01-01T00:00:00+24:00",
-                       "20200101", "T12:00:00", "2020-01-01 "])
+    return rng.choice(["", "abc", "12:00", "2020-13-01", "2020-02-30", "2021-02-29", "2020-01-01T25:00:00", "2020-01-01T00:00:00+24:00",
+                       "20200101", "T12:00:00", "2020-01-01 ", "0000-01-01", "12:00:60", "12:00:61", "2020-01-01T00:00:00+0060",
+                       "+1:00", "a+b:cd", "12:00:00+01:0", "2020-01-01t00:00:00", "2020-01-01T00:00:00 Z"])
 
 
 def render_envelope(rng, inner: str, ser: List[str]) -> str:
